@@ -53,7 +53,12 @@ pub fn case(rng: &mut Rng) -> String {
             // compose f g ; occasionally with mismatching dimensions (the code asserts)
             let g = rand_aff(rng, m, n);
             let fin = if rng.chance(1, 8) { m + 1 } else { m };
-            let f = rand_aff(rng, k, fin);
+            let mut f = rand_aff(rng, k, fin);
+            // now and then the outer function is a translation (unit matrix, non-zero offset) or the identity
+            if fin == m && rng.chance(1, 5) {
+                let off = rand_vec(rng, m);
+                f = AffFunc::from_mats(ndarray::Array2::eye(m), if rng.chance(1, 4) { ndarray::Array1::zeros(m) } else { off });
+            }
             out.push_str("compose ");
             enc::aff(&mut out, &f);
             out.push(' ');
